@@ -264,6 +264,7 @@ class Run:
             "known_hits": dict(self.known_hits), "required": self.required,
             "inconclusive": self.inconclusive, "level": self.level, "rule": self.rule,
             "assumptions": self.assumptions, "exhaustive": self.exhaustive,
+            "line_hits": getattr(self, "line_hits", {}),
         }
 
     def absorb(self, p):
@@ -308,6 +309,11 @@ class Run:
         for a in p["assumptions"]:
             if a not in self.assumptions:
                 self.assumptions.append(a)
+        lh = getattr(self, "line_hits", None)
+        if lh is None:
+            lh = self.line_hits = {}
+        for f, lines in p.get("line_hits", {}).items():
+            lh.setdefault(f, set()).update(lines)
         if p["exhaustive"] is not None:
             self.exhaustive = p["exhaustive"] if self.exhaustive is None \
                 else (self.exhaustive and p["exhaustive"])
@@ -334,6 +340,19 @@ class Run:
         }
         if self.exhaustive is not None:
             cov["exhaustive"] = bool(self.exhaustive)
+        lh = getattr(self, "line_hits", None)
+        if lh:
+            reach = {}
+            for f, lines in sorted(lh.items()):
+                try:
+                    exe = executable_lines(REPO / f)
+                except Exception:
+                    continue
+                hit = set(lines) & exe
+                miss = sorted(exe - hit)
+                reach[f] = {"executable_lines": len(exe), "lines_executed_under_monitors": len(hit),
+                            "not_executed": miss if len(miss) <= 60 else miss[:60] + ["... %d more" % (len(miss) - 60)]}
+            cov["anchored_code_reached"] = reach
         ev = {
             "property_id": self.pid, "tier": self.tier, "seed": self.seed, "level": self.level,
             "coverage": cov, "assumptions": self.assumptions, "wall_s": round(wall, 3),
@@ -373,6 +392,72 @@ class Run:
               "evaluations, %.1fs" % (self.pid, self.tier, self.evaluations, len(self.digests),
                                       sum(self.counters.values()), wall))
         return 0
+
+
+# --------------------------------------------------------------------------- line-hit evidence
+class LineHits:
+    """
+    sys.monitoring LINE recorder restricted to the anchored evo source files of a property.
+    Every location disables itself after its first hit, so the cost is negligible.  The result
+    (executed line numbers per file) goes into the evidence as proof of what the workloads
+    actually reached inside the code the property is anchored in.
+    """
+    TOOL = 4
+
+    def __init__(self, rel_files):
+        self.files = {str(REPO / f): f for f in rel_files}
+        self.hits = {f: set() for f in rel_files}
+        self.on = False
+
+    def start(self):
+        if not self.files:
+            return
+        mon = sys.monitoring
+        try:
+            mon.use_tool_id(self.TOOL, "vmon-linehits")
+        except ValueError:
+            return
+        files, hits = self.files, self.hits
+
+        def on_line(code, line):
+            rel = files.get(code.co_filename)
+            if rel is not None:
+                hits[rel].add(line)
+            return mon.DISABLE
+
+        mon.register_callback(self.TOOL, mon.events.LINE, on_line)
+        mon.set_events(self.TOOL, mon.events.LINE)
+        self.on = True
+
+    def stop(self):
+        if self.on:
+            sys.monitoring.set_events(self.TOOL, 0)
+            sys.monitoring.free_tool_id(self.TOOL)
+            self.on = False
+
+    def result(self):
+        return {f: sorted(v) for f, v in self.hits.items()}
+
+
+def executable_lines(path):
+    """line numbers inside function bodies that carry code (from the compiled code objects)"""
+    import types
+    src = Path(path).read_text()
+    top = compile(src, str(path), "exec")
+    out = set()
+    stack = [top]
+    while stack:
+        co = stack.pop()
+        if co.co_flags & 0x2:  # function bodies only: module / class level code runs at import time
+            first = True
+            for _, _, ln in co.co_lines():
+                if ln is not None and ln > 0 and not (first and ln == co.co_firstlineno):
+                    out.add(ln)
+                first = False
+        for c in co.co_consts:
+            if isinstance(c, types.CodeType):
+                stack.append(c)
+    return out
 
 
 # --------------------------------------------------------------------------- numeric helpers
